@@ -4,7 +4,7 @@ CHECK = dict(
     property='C09', level='exploration',
     families=[('mempool', 1.0)],
     budget=dict(quick=55, thorough=900), max_runs=dict(quick=200_000, thorough=5_000_000),
-    rule='same family as C08 with daemon events (block, fork, eviction, arrival) and index flushes placed by the scheduler inside refreshes (background events at random virtual offsets while requests are in flight, daemon latencies up to seconds, daemon faults, thread stalls). Monitors at every hand-over and at quiescence: the server has not died from an exception of keep_synchronized; every recorded tx has input (script hash, value) pairs equal to the global truth of its prevouts and fee = max(0, in - out); hashXs is the exact inverse of txs; at the next synchronised refresh the C08 exactness holds (bounded liveness: a synchronised refresh must occur in the fault-free tail). non-trivial = a synchronised non-empty refresh was compared',
+    rule='motifs: two fetch batches answered after different long delays with a block and evictions in between; same family as C08 with daemon events (block, fork, eviction, arrival) and index flushes placed by the scheduler inside refreshes (background events at random virtual offsets while requests are in flight, daemon latencies up to seconds, daemon faults, thread stalls). Monitors at every hand-over and at quiescence: the server has not died from an exception of keep_synchronized; every recorded tx has input (script hash, value) pairs equal to the global truth of its prevouts and fee = max(0, in - out); hashXs is the exact inverse of txs; at the next synchronised refresh the C08 exactness holds (bounded liveness: a synchronised refresh must occur in the fault-free tail). non-trivial = a synchronised non-empty refresh was compared',
     assumptions=['model bitcoind / Electrum clients / TCP / LevelDB / file system are simulator models; '
                  'everything of ElectrumX and aiorpcX runs real', 'session cost throttling disabled '
                  '(COST_*_LIMIT=0) so that oracle sweeps are not throttled',
